@@ -150,9 +150,9 @@ var checks = map[string]checkCfg{
 		Assumptions: append([]string{"keeping the previous positive value instead of the construction default is accepted"}, baseAssumptions...),
 		Phases:      []phase{rp("rapid", "^TestC24$", 4, 500, 16, 5000)}},
 	"C25": {Level: "exploration", Technique: "rapid offsets/sizes around the limit; size invariant + differential against an unlimited twin server",
-		Rule:        "each case draws MaxFileSize M from {1,2,100,4096,65537,2^31,2^40}, whether it is set at construction or at runtime, and 2-14 WRITE / SETATTR(size) requests whose end offset is M-1, M, M+1, 2M, 2^62, M/2, 1, M+5000 or 0; every request is also sent to a twin server without limit when it stays within M; non-trivial = a request whose resulting size is within +-1 of M; distinct = FNV-64 of the case JSON",
+		Rule:        "each case draws MaxFileSize M from {1,2,100,4096,65537,2^31,2^40}, whether it is set at construction or at runtime, and 2-14 WRITE / SETATTR(size) requests whose end offset is M-1, M, M+1, 2M, 2^62, M/2, 1, M+5000 or 0; every request is also sent to a twin server without limit when it stays within M; non-trivial = a request whose resulting size is within +-1 of M; phase drain: a WRITE / SETATTR(size) producing a size between the new and the old limit is parked inside the backend by a harness gate while MaxFileSize is lowered (or switched on) through UpdatePolicyOptions / UpdateExportOptions; after the update has returned no backend call may grow the file beyond the new limit; every such case is non-trivial; distinct = FNV-64 of the case JSON",
 		Assumptions: baseAssumptions,
-		Phases:      []phase{rp("rapid", "^TestC25$", 4, 500, 16, 5000)}},
+		Phases:      []phase{rp("rapid", "^TestC25$", 4, 500, 16, 5000), rp("drain", "^TestC25Drain$", 4, 30, 8, 300)}},
 	"C26": {Level: "exploration", Technique: "rapid directories x count values; cookie-following client; set equality + XDR size bound oracle",
 		Rule:        "each case draws a directory of 0-80 entries with name lengths over 1..255 (many at 255), READDIR or READDIRPLUS, and count / (dircount, maxcount) from {0,1,100,103,104,127,128,129,131,132,200,300,332,400,512,1024,4096,8192,65536,2^32-1}; the client follows cookies until eof, TOOSMALL or n+3 calls; non-trivial = the listing needed >=2 pages or the limit was below one entry (TOOSMALL); distinct = FNV-64 of the case JSON",
 		Assumptions: append([]string{"the size limit is compared with the encoded resok without the status word (the more lenient reading of RFC 1813); dircount is not judged", "when nothing remains to be listed and even the resok header exceeds count, OK and TOOSMALL are both accepted"}, baseAssumptions...),
